@@ -29,7 +29,6 @@ Section Fixed.
   Variable inp : list N.
   Variables pre dmax : N.
   Hypothesis Hfix : fixed c pre dmax.
-  Hypothesis Hmach : machine_ok e pre dmax.
   (* a Rust slice (and a file offset) never exceeds isize::MAX / i64::MAX bytes *)
   Hypothesis Hlen : blen inp <= isize_max.
 
@@ -155,27 +154,33 @@ Section Fixed.
     - right. eauto.
   Qed.
 
+  (* a crash (panic / abort) is only possible on a machine that cannot allocate MAX_PREALLOC
+     bytes or cannot hold MAX_DEPTH nested frames *)
+  Definition crash {A} (r : res A) : Prop := (r = Panic \/ r = Abort) /\ ~ machine_ok e pre dmax.
+
   Lemma vr_read_bytes_cases pos len :
     (exists bs, vr_read_bytes c e inp pos len = Ok (pos + len, bs) /\ pos + len <= blen inp)
-    \/ vr_read_bytes c e inp pos len = Err EIo.
+    \/ vr_read_bytes c e inp pos len = Err EIo
+    \/ crash (vr_read_bytes c e inp pos len).
   Proof.
-    fx. destruct Hmach as (Hm1 & Hm2 & _). unfold vr_read_bytes. rewrite Hpre.
+    fx. unfold vr_read_bytes, crash, machine_ok. rewrite Hpre.
     assert (Hcap : N.min len pre <= pre) by lia.
-    destruct (isize_max <? N.min len pre) eqn:E1; [apply N.ltb_lt in E1; lia|].
-    destruct (e_mem e <? N.min len pre) eqn:E2; [apply N.ltb_lt in E2; lia|].
+    destruct (isize_max <? N.min len pre) eqn:E1; [apply N.ltb_lt in E1; right; right; split; [auto|lia]|].
+    destruct (e_mem e <? N.min len pre) eqn:E2; [apply N.ltb_lt in E2; right; right; split; [auto|lia]|].
     destruct (pos + len <=? blen inp) eqn:E3.
     - apply N.leb_le in E3. left. eauto.
-    - right. reflexivity.
+    - right. left. reflexivity.
   Qed.
 
   Lemma lr_read_bytes_cases l pos len :
     (exists bs, lr_read_bytes c e inp l pos len = Ok (pos + len, bs) /\ pos + len <= blen inp)
-    \/ exists x, lr_read_bytes c e inp l pos len = Err x.
+    \/ (exists x, lr_read_bytes c e inp l pos len = Err x)
+    \/ crash (lr_read_bytes c e inp l pos len).
   Proof.
     unfold lr_read_bytes.
     destruct (check_has_bytes_cases (e_debug e) l pos len) as [(H & _ & _)|(H & _)]; rewrite H; cbn [bind].
-    - destruct (vr_read_bytes_cases pos len) as [H1|H1]; [left; exact H1|right; eauto].
-    - right. eauto.
+    - destruct (vr_read_bytes_cases pos len) as [H1|[H1|H1]]; [left; exact H1|right; left; eauto|right; right; exact H1].
+    - right. left. eauto.
   Qed.
 
   (* ---------------------------------------------------------------- Fields::next *)
@@ -276,7 +281,8 @@ Section Fixed.
     match r with
     | Ok (p, _, tr) => pos <= p /\ p <= blen inp /\ (forall e', l = Some e' -> e' <= p) /\ Forall inb tr
     | Err _ => True
-    | _ => False
+    | Panic | Abort => ~ machine_ok e pre dmax
+    | OutOfFuel => False
     end.
 
   Definition rec_ok (fuel : nat) (rec : N -> lim -> N -> N -> res mres) : Prop :=
@@ -287,7 +293,8 @@ Section Fixed.
     match r with
     | Ok (p', tr) => p <= p' /\ p' <= blen inp /\ (forall n, v = VLen n -> p + n <= blen inp) /\ Forall inb tr
     | Err _ => True
-    | _ => False
+    | Panic | Abort => ~ machine_ok e pre dmax
+    | OutOfFuel => False
     end.
 
   Lemma handle_ok fuel rec a v fl p depth :
@@ -298,7 +305,6 @@ Section Fixed.
   Proof.
     intros Hrec Hp Hd Hf Hv.
     assert (Hdep : c_depth c = Some dmax) by (fx; auto).
-    assert (Hst : dmax <= e_stack e) by (destruct Hmach as (_ & _ & H); exact H).
     destruct v as [x| |n| | |];
       try (destruct a; unfold handle; cbv beta iota zeta;
            first [ exact I
@@ -309,11 +315,13 @@ Section Fixed.
       destruct (lr_skip_cases (e_debug e) (Some (p + n)) p n Hp) as [(E & Hle)|(x & E)]; rewrite E; cbn [bind]; [|exact I].
       cbn. repeat split; try lia; [intros ? [= <-]; lia|constructor].
     - (* AString *)
-      destruct (lr_read_bytes_cases (Some (p + n)) p n) as [(bs & E & Hle)|(x & E)]; rewrite E; cbn [bind]; [|exact I].
+      destruct (lr_read_bytes_cases (Some (p + n)) p n) as [(bs & E & Hle)|[(x & E)|([E|E] & Hc)]]; rewrite E; cbn [bind];
+        [|exact I|exact Hc|exact Hc].
       destruct (utf8_valid bs); [|exact I].
       cbn. repeat split; try lia; [intros ? [= <-]; lia|constructor].
     - (* ABytes *)
-      destruct (lr_read_bytes_cases (Some (p + n)) p n) as [(bs & E & Hle)|(x & E)]; rewrite E; cbn [bind]; [|exact I].
+      destruct (lr_read_bytes_cases (Some (p + n)) p n) as [(bs & E & Hle)|[(x & E)|([E|E] & Hc)]]; rewrite E; cbn [bind];
+        [|exact I|exact Hc|exact Hc].
       cbn. repeat split; try lia; [intros ? [= <-]; lia|constructor].
     - (* ARepVarint *)
       rewrite (sub_limit_exact (e_debug e) p n Hn). cbn [bind].
@@ -332,7 +340,7 @@ Section Fixed.
       repeat split; try lia; [intros ? [= <-]; lia|constructor].
     - (* AMsg *)
       rewrite Hdep. destruct (dmax <=? depth) eqn:Ed; [exact I|]. apply N.leb_gt in Ed.
-      destruct (e_stack e <? depth + 1) eqn:Es; [apply N.ltb_lt in Es; lia|].
+      destruct (e_stack e <? depth + 1) eqn:Es; [apply N.ltb_lt in Es; unfold machine_ok; lia|].
       rewrite (sub_limit_exact (e_debug e) p n Hn). cbn [bind].
       pose proof (Hrec m (Some (p + n)) p (depth + 1) Hp ltac:(lia) Hf) as H.
       destruct (rec m (Some (p + n)) p (depth + 1)) as [[[p' flds] tr]|x| | |]; cbn in H |- *; try tauto.
